@@ -152,7 +152,7 @@ CHECKS["C15"] = dict(
 CHECKS["C16"] = dict(
     text="Theorems: the model of the vers-text parser (remove_spaces, split, constraint parsing, validation, sort, VersionRange construction) is total and every error value it "
          "returns is one of the declared kinds; the simplification walk returns within its fuel bound 2n on every list; each modelled version constructor (generic, legacy openssl, "
-         "ebuild, alpine, deb, semver family) returns a value or the invalid-version error on every string. These are structural-recursion / explicit-fuel models, so termination "
+         "ebuild, alpine, deb, semver family and the later ones) returns a value or the invalid-version error on every string; the modelled native parsers (maven/nuget bracket notation, deb/rpm relationship strings, nginx) return a value, a ValueError or the constructor's error, and the loop of the bracket parser never exhausts its fuel. These are structural-recursion / explicit-fuel models, so termination "
          "is part of Coq's acceptance. On the implementation every public parsing entry point (all version classes, vers text, all native and advisory parsers) is run on grammar, "
          "near-pair, small-alphabet, malformed, non-ASCII and long repetitive inputs and every outcome is classified value / declared error / internal error; model error kinds are "
          "compared with the implementation's; running time on eight repetitive families is measured in forked children with a hard limit and a growth-exponent fit.",
